@@ -761,6 +761,17 @@ def blame(t):
     """(value type, layout) named in the signature of a wrong verdict. A test with one class of
     expectation names it; for a mixed test each expectation is run alone through run_tests (same
     situation, period and margins) and the first one whose own verdict is wrong is named."""
+    opts = t.get("options") or {}
+    if any(k in opts for k in ("verbose", "aggregate", "max_depth")):
+        # the same test without the printing options: if its verdict is then right, the option is what breaks it
+        quiet = {k: v for k, v in opts.items() if k not in ("verbose", "aggregate", "max_depth")}
+        whole = {k: t[k] for k in ("name", "input", "period", "absolute_error_margin", "relative_error_margin", "extra", "output")
+                 if k in t}
+        _, outs = A.run_yaml_tests(A.system(), yaml_of_tests([whole]), "blame", quiet or None)
+        want = expected_verdict(t)
+        if len(outs) == 1 and want is not None and (outs[0]["outcome"] == "passed") == want:
+            return ("option", "verbose" if "verbose" in opts else
+                    "+".join(sorted(k for k in opts if k in ("aggregate", "max_depth"))))
     classes = list(dict.fromkeys((_slot_type(x["var"]), x["layout"]) for x in t["expectations"]))
     if len(classes) == 1:
         return classes[0]
@@ -1399,23 +1410,33 @@ def gen_yaml_group(rng: random.Random, name: str, type_pick=None, relation=None,
         lay0 = lay0 or lay
         if lay != "instance" and len(set(map(repr, exps))) == 1 and rng.random() < 0.3:
             exps = exps[0]                      # a scalar, broadcast over the population
+        if lay == "instance" and rng.random() < 0.6:
+            # only some instances, and not in the order of the population
+            pl = A.PLURAL[var_info(var)[0]]
+            pairs_ = list(zip(ids[pl], exps))
+            rng.shuffle(pairs_)
+            pairs_ = pairs_[:rng.randint(1, len(pairs_))]
+            place(output, lay, var, per, [e for _, e in pairs_], {**ids, pl: [i for i, _ in pairs_]})
+            continue
         place(output, lay, var, per, exps, ids)
     out.append(finish_test(name, inp, tperiod, margins, output, lay0, extra=extra, options=options, form=form))
     return out
 
 
 def gen_options(rng: random.Random):
-    """options of run_tests for one file (verbose needs max_depth: see the note in PROP.assumptions)"""
+    """options of run_tests for one file"""
     r = rng.random()
     names = list(A.VARS)
-    if r < 0.55:
+    if r < 0.5:
         return {}
     if r < 0.7:
         return {"ignore_variables": rng.sample(names, rng.choice([0, 6, 15]))}
     if r < 0.85:
         return {"only_variables": rng.sample(names, rng.choice([0, 20, 35]))}
-    if r < 0.92:
-        return {"verbose": True, "max_depth": rng.choice([1, 3]), "aggregate": rng.random() < 0.5}
+    if r < 0.95:      # verbose with and without max_depth / aggregate; aggregate alone (no effect without verbose)
+        return rng.choice([{"verbose": True}, {"verbose": True}, {"verbose": True, "max_depth": rng.choice([1, 3])},
+                           {"verbose": True, "aggregate": True}, {"verbose": True, "max_depth": 2, "aggregate": True},
+                           {"aggregate": True}, {"max_depth": 2}])
     return {"ignore_variables": rng.sample(names, 8), "only_variables": rng.sample(names, 30)}
 
 
@@ -1664,8 +1685,8 @@ def corpus():
                                                     "c": {"p_f_strn": {"2018-01": None}, "p_int": {"2018-01": 2}}}}, tags=("F-C20b",)))
     out.append(mk_request_case("trace", {"persons": {"a": {"p_strn": {"2018-01": None}, "p_f_strn": {"2018-01": None}}}}, tags=("F-C20b",)))
 
-    def one(name, output, layout, margins=None):
-        return finish_test(name, sit, TEST_PERIOD, margins or {}, output, layout)
+    def one(name, output, layout, margins=None, options=None):
+        return finish_test(name, sit, TEST_PERIOD, margins or {}, output, layout, options=options)
     # F-C20a: an enum expectation in the by-instance layout always errs
     out.append(mk_yaml_case([one("enum-instance", {"persons": {"a": {"p_f_enum": "owner"}, "b": {"p_f_enum": "free_lodger"}}}, "instance"),
                              one("enum-variable", {"p_f_enum": ["owner", "free_lodger"]}, "variable"),
@@ -1676,6 +1697,15 @@ def corpus():
                              one("str-instance", {"persons": {"a": {"p_str": "hello", "p_f_str": "no"}}}, "instance"),
                              one("strn-entity", {"person": {"p_strn": ["abc", ""], "p_f_strn": ["pos", "pos"]}}, "entity"),
                              one("str-wrong", {"p_str": ["hellO", ""]}, "variable")], tags=("F-C20c",)))
+    # F-C20d: the option verbose without max_depth failed every test
+    for opts in ({"verbose": True}, {"verbose": True, "aggregate": True}, {"verbose": True, "max_depth": 1}, {"aggregate": True}):
+        out.append(mk_yaml_case([one("verbose-pass", {"p_f_int": [7, 3]}, "variable", options=opts),
+                                 one("verbose-fail", {"persons": {"b": {"p_f_int": 4}}}, "instance", options=opts)],
+                                tags=("F-C20d",), options=opts))
+    # by instance: some instances only, not in the order of the population
+    out.append(mk_yaml_case([one("instance-order", {"persons": {"b": {"p_f_int": 3}, "a": {"p_f_int": 7}}}, "instance"),
+                             one("instance-subset", {"persons": {"b": {"p_f_int": 3}}}, "instance"),
+                             one("instance-subset-wrong", {"persons": {"b": {"p_f_int": 7}}}, "instance")], tags=("instances",)))
     # the margins, exactly at and just beyond
     out.append(mk_yaml_case([one("abs-at", {"p_f_int": [8, 3]}, "variable", {"absolute_error_margin": 1}),
                              one("abs-beyond", {"p_f_int": [8.125, 3]}, "variable", {"absolute_error_margin": 1}),
@@ -1794,8 +1824,8 @@ PROP = Prop(
         "at one period per YAML test (with max_spiral_loops) and never through the API streams — on it /trace (first node kept "
         "under a key) and /calculate (last top-level value) differ, reported as an observation, outside the theorem's hypothesis "
         "`Coherent`",
-        "run_tests with options={'verbose': True} and no max_depth fails every test (print_computation_log(max_depth=None) raises "
-        "TypeError; the command line passes sys.maxsize): verbose is generated with max_depth; reported as an observation",
+        "the printing options of run_tests (verbose, aggregate, max_depth, in every combination) must not change a verdict; "
+        "F-C20d (fixed): verbose without max_depth failed every test",
         "two inputs for one slot (two spellings of one period, two periods of an eternal variable) are the builder's business "
         "(C12) and are not generated as inputs",
         "listings: parameter value histories and formula start dates / end are theorems (C20_listings_partial); scales are compared "
